@@ -1,7 +1,8 @@
 #!/bin/bash
 # usage: runmut2.sh <abs patch.diff> <prop> [tier]
 # Like runmut.sh, but leaves /repo and /verif/evidence alone: the change is applied to a scratch worktree of /repo's HEAD and the
-# check runs against it (VERIF_REPO) from a scratch copy of /verif (VERIF_DIR).  Several can run side by side.
+# check runs against it (VERIF_REPO) from a scratch copy of /verif (VERIF_DIR; copied from $VERIF_SRC when set, e.g. a `vp run`
+# snapshot in which ./setup.sh has been run).  Several can run side by side.
 patch=$1; prop=$2; tier=${3:-quick}
 id=$$.$RANDOM
 wt=/tmp/mutwt/$id; vc=/tmp/mutvc/$id
@@ -10,7 +11,7 @@ git -C /repo worktree add --detach $wt HEAD >/dev/null 2>&1 || { echo "cannot cr
 if ! git -C $wt apply "$patch" 2>/tmp/mutwt/$id.err; then echo "PATCH DOES NOT APPLY: $(head -1 /tmp/mutwt/$id.err)"; git -C /repo worktree remove --force $wt; rm -f /tmp/mutwt/$id.err; exit 8; fi
 rm -f /tmp/mutwt/$id.err
 mkdir -p $vc
-rsync -a --exclude .git --exclude seeded --exclude evidence --exclude replays /verif/ $vc/
+rsync -a --exclude .git --exclude seeded --exclude evidence --exclude replays ${VERIF_SRC:-/verif}/ $vc/
 mkdir -p $vc/evidence
 ( cd $vc && VERIF_REPO=$wt VERIF_DIR=$vc ./bin/vcheck $prop $tier > $vc/out.txt 2>&1 ); rc=$?
 grep -c '^VIOLATION' $vc/out.txt | sed 's/^/violation lines: /'
